@@ -31,11 +31,12 @@ def newTopicTags (src : List String) : Except Unit (List String) :=
   | none => .ok []
   | some tags => if !tags.isEmpty ∧ !immutableSame tags [] then .error () else .ok tags
 
-def Ctx.opSetTags (c : Ctx) (a : Actor) (tn : TName) (src : List String) (p2p : Bool) : Ctx :=
+def Ctx.opSetTags (c : Ctx) (a : Actor) (tn : TName) (src : List String) (p2p : Bool) (viaChn : Bool := false) : Ctx :=
   if !c.w.attached a.sid tn then c.emit a.sid (ctrl 403 tn) else
   match c.w.live? tn with
   | none => c
   | some t =>
+    if viaChn ∧ !t.isChan then c.emit a.sid (ctrl 404 tn) else      -- a topic which is not a channel addressed as one
     if p2p then c.emit a.sid (ctrl 405 tn) else
     if t.owner ≠ a.uid then c.emit a.sid (ctrl 403 tn) else
     match normTags src with
@@ -54,11 +55,12 @@ def Ctx.opSetTags (c : Ctx) (a : Actor) (tn : TName) (src : List String) (p2p : 
       let params := (if added > 0 then s!" added={added}" else "") ++ (if removed > 0 then s!" removed={removed}" else "")
       (c.emit a.sid (ctrl 200 tn params)).putLive t
 
-def Ctx.opGetTags (c : Ctx) (a : Actor) (tn : TName) (p2p : Bool) : Ctx :=
+def Ctx.opGetTags (c : Ctx) (a : Actor) (tn : TName) (p2p : Bool) (viaChn : Bool := false) : Ctx :=
   if !c.w.attached a.sid tn then c.emit a.sid (ctrl 403 tn) else
   match c.w.live? tn with
   | none => c
   | some t =>
+    if viaChn ∧ !t.isChan then c.emit a.sid (ctrl 404 tn) else      -- a topic which is not a channel addressed as one
     if p2p then c.emit a.sid (ctrl 405 tn) else
     if t.owner ≠ a.uid then c.emit a.sid (ctrl 403 tn) else
     if t.tags.isEmpty then c.emit a.sid (ctrl 204 tn " what=tags")
